@@ -60,41 +60,52 @@ func c18Expr(e ast.Expr) string {
 	return fmt.Sprintf("%T", e)
 }
 
-// c18Pair judges (lineExpr, posExpr): established (0) for "<X>.Lline" with "<X>.Lpos" (or the given
-// suffixes) of ONE base, or 0 with 0; refuted (1) when position fields are used in a wrong
-// arrangement — swapped, taken from different tokens, another field of the token (byte offset,
-// PrefixNewlines), or arithmetic on them; unknown (2) for any other shape (locals, helper calls): a
-// behaviour-preserving rewrite may produce those, they break nothing.
+// c18Operand classifies one operand against the position field it should be:
+//
+//	ok      a selector ending in the wanted field (base returned)
+//	bad     POSITIVELY wrong: the byte offset or PrefixNewlines of a token (".Token.Pos",
+//	        ".Token.PrefixNewlines"), or arithmetic on a selector of a position field
+//	other   anything else (locals, helper calls, selectors of unrelated types): says nothing
+func c18Operand(e, want string) (class string, base string) {
+	if strings.ContainsAny(e, "+-*/%") {
+		for _, f := range []string{".Lline", ".Lpos", ".Line", ".Pos", ".PrefixNewlines"} {
+			if strings.Contains(e, f) {
+				return "bad", ""
+			}
+		}
+		return "other", ""
+	}
+	if strings.HasSuffix(e, ".Token.Pos") || strings.HasSuffix(e, ".Token.PrefixNewlines") || strings.HasSuffix(e, ".PrefixNewlines") {
+		return "bad", ""
+	}
+	if strings.HasSuffix(e, want) && !strings.Contains(e, "(") {
+		return "ok", strings.TrimSuffix(e, want)
+	}
+	return "other", ""
+}
+
+// c18Pair judges (lineExpr, posExpr), three-valued: established (0) for "<X>.<L>" with "<X>.<P>" of
+// ONE base X (or 0 with 0); refuted (1) only when something is positively wrong — an operand is "bad"
+// (see c18Operand) or the two wanted fields of ONE base are swapped; unknown (2) otherwise. Only a
+// refuted site breaks the obligation; kinds E / X / B observe the same sites at run time.
 func c18Pair(line, pos string, sufL, sufP string) (int, string) {
 	d := line + " / " + pos
 	if line == "0" && pos == "0" {
 		return 0, d
 	}
-	okL, okP := strings.HasSuffix(line, sufL), strings.HasSuffix(pos, sufP)
-	if okL && okP {
-		if strings.TrimSuffix(line, sufL) == strings.TrimSuffix(pos, sufP) {
-			return 0, d
-		}
-		return 1, d // two different tokens / objects
-	}
-	posFields := []string{".Lline", ".Lpos", ".Line", ".Pos", ".PrefixNewlines"}
-	mentions := func(e string) bool {
-		for _, f := range posFields {
-			if strings.Contains(e, f) {
-				return true
-			}
-		}
-		return false
-	}
-	arith := func(e string) bool { return strings.ContainsAny(e, "+-*/%") && mentions(e) }
-	wrong := func(e, want string) bool { // a bare selector of a position field other than the wanted one
-		if !mentions(e) || strings.ContainsAny(e, "+-*/%(") {
-			return false
-		}
-		return !strings.HasSuffix(e, want)
-	}
-	if arith(line) || arith(pos) || wrong(line, sufL) || wrong(pos, sufP) {
+	cl, bl := c18Operand(line, sufL)
+	cp, bp := c18Operand(pos, sufP)
+	if cl == "bad" || cp == "bad" {
 		return 1, d
+	}
+	if cl == "ok" && cp == "ok" && bl == bp {
+		return 0, d
+	}
+	// swapped on one base
+	if sl, b1 := c18Operand(line, sufP); sl == "ok" {
+		if sp, b2 := c18Operand(pos, sufL); sp == "ok" && b1 == b2 {
+			return 1, d
+		}
 	}
 	return 2, d
 }
@@ -222,15 +233,6 @@ func c18Extract(out string) int {
 				v, d := c18Pair(line, pos, sufL, sufP)
 				add(ck, name, v, d)
 			case *ast.CallExpr:
-				if fi.pkg == "interpreter" && fn == "ecalDebugger.VisitState" {
-					for i := 0; i+1 < len(x.Args); i++ {
-						src := c18Expr(x.Args[i])
-						if strings.HasSuffix(src, ".Token.Lsource") {
-							v, d := c18Pair(c18Expr(x.Args[i+1]), src, ".Token.Lline", ".Token.Lsource")
-							add(7, "break point key in "+fi.pkg+"."+fn, v, d)
-						}
-					}
-				}
 				if c18Expr(x.Fun) != "fmt.Sprintf" || len(x.Args) < 3 {
 					return true
 				}
@@ -279,16 +281,123 @@ func c18Extract(out string) int {
 				k := c18Expr(ie.Index)
 				r := c18Expr(x.Rhs[0])
 				if k == `"line"` || k == `"pos"` {
-					want := map[string]string{`"line"`: ".Line", `"pos"`: ".Pos"}[k]
-					v := 1
-					if strings.HasSuffix(r, want) {
+					want, other := ".Line", ".Pos"
+					if k == `"pos"` {
+						want, other = ".Pos", ".Line"
+					}
+					v := 2
+					if cls, _ := c18Operand(r, want); cls == "bad" {
+						v = 1
+					} else if cls == "ok" {
 						v = 0
+					} else if c2, _ := c18Operand(r, other); c2 == "ok" {
+						v = 1 // the other position field of an error value
 					}
 					add(map[string]int{`"line"`: 9, `"pos"`: 10}[k], "except object "+k[1:len(k)-1]+" in "+fi.pkg+"."+fn, v, r)
 				}
 			}
 			return true
 		})
+	}
+	// kind 7: the key under which VisitState looks a token up in ed.breakPoints — the value that
+	// INDEXES the map, traced to its defining call (Sprintf or a helper)
+	for _, fi := range files {
+		if fi.pkg != "interpreter" {
+			continue
+		}
+		for _, d := range fi.file.Decls {
+			fd, ok := d.(*ast.FuncDecl)
+			if !ok || fd.Name.Name != "VisitState" || fd.Body == nil {
+				continue
+			}
+			defs := map[string]*ast.CallExpr{}
+			ast.Inspect(fd.Body, func(n ast.Node) bool {
+				if as, ok := n.(*ast.AssignStmt); ok && len(as.Lhs) == 1 && len(as.Rhs) == 1 {
+					if id, ok := as.Lhs[0].(*ast.Ident); ok {
+						if c, ok := as.Rhs[0].(*ast.CallExpr); ok {
+							defs[id.Name] = c
+						}
+					}
+				}
+				return true
+			})
+			seen := map[string]bool{}
+			ast.Inspect(fd.Body, func(n ast.Node) bool {
+				ie, ok := n.(*ast.IndexExpr)
+				if !ok || !strings.HasSuffix(c18Expr(ie.X), ".breakPoints") {
+					return true
+				}
+				var call *ast.CallExpr
+				switch ix := ie.Index.(type) {
+				case *ast.Ident:
+					if seen[ix.Name] {
+						return true
+					}
+					seen[ix.Name] = true
+					call = defs[ix.Name]
+				case *ast.CallExpr:
+					call = ix
+				}
+				name := "break point key in interpreter.ecalDebugger.VisitState"
+				if call == nil {
+					add(7, name, 2, "key not built by a call in this function")
+					return true
+				}
+				args := call.Args
+				if c18Expr(call.Fun) == "fmt.Sprintf" && len(args) >= 1 {
+					args = args[1:]
+				}
+				if len(args) != 2 {
+					add(7, name, 2, c18Expr(call.Fun)+" with "+fmt.Sprint(len(args))+" operands")
+					return true
+				}
+				src, line := c18Expr(args[0]), c18Expr(args[1])
+				v := 2
+				cl, bl := c18Operand(line, ".Token.Lline")
+				cs, bs := c18Operand(src, ".Token.Lsource")
+				switch {
+				case cl == "bad" || strings.HasSuffix(line, ".Token.Lpos"):
+					v = 1
+				case cl == "ok" && cs == "ok" && bl == bs:
+					v = 0
+				}
+				add(7, name, v, line+" / "+src)
+				return true
+			})
+		}
+	}
+	// anchors that exist although no site of the expected shape was found in them: unknown (2) rows, so
+	// that "the kind is present" does not depend on HOW the text / key is built
+	has := func(kind int) bool {
+		for _, x := range sites {
+			if x.kind == kind {
+				return true
+			}
+		}
+		return false
+	}
+	for _, fi := range files {
+		for _, d := range fi.file.Decls {
+			fd, ok := d.(*ast.FuncDecl)
+			if !ok || fd.Recv == nil || len(fd.Recv.List) != 1 {
+				continue
+			}
+			recv := strings.TrimPrefix(c18Expr(fd.Recv.List[0].Type), "*")
+			switch {
+			case fi.pkg == "parser" && recv == "Error" && fd.Name.Name == "Error" && !has(3):
+				add(3, "message text in parser.Error.Error", 2, "no Sprintf with (Line:%d Pos:%d) in the method itself")
+			case fi.pkg == "util" && recv == "RuntimeError" && fd.Name.Name == "Error" && !has(4):
+				add(4, "message text in util.RuntimeError.Error", 2, "no Sprintf with (Line:%d Pos:%d) in the method itself")
+			case fi.pkg == "util" && recv == "RuntimeError" && fd.Name.Name == "GetTraceString" && !has(6):
+				add(6, "stack trace entry in util.RuntimeError.GetTraceString", 2, "no Sprintf ending in (%v:%v) in the method itself")
+			case fi.pkg == "interpreter" && recv == "ecalDebugger" && fd.Name.Name == "SetBreakPoint" && !has(8):
+				add(8, "break point key in interpreter.ecalDebugger.SetBreakPoint", 2, "key not built by an inline Sprintf")
+			}
+		}
+	}
+	if len(files) == 0 {
+		fmt.Println("no Go source found under", root)
+		return 1
 	}
 	sort.SliceStable(sites, func(i, j int) bool { return sites[i].name < sites[j].name })
 	var sb strings.Builder
